@@ -170,6 +170,63 @@ def run_enum_stage(stage, tier, shard, nshards, ctx, journal):
             ctx.report(v.bucket, v.msg, case)
 
 
+def run_fuzz_stage(stage, tier, shard, nshards, seed, ctx, out_path, scratch_dir):
+    """Coverage-guided campaign (atheris/libFuzzer) with the semantic oracle inside the target.
+    stage: target(data: bytes, ctx) raising Violation; runs{tier}; seeds: list of bytes; instrument: list of package names."""
+    import atheris
+    runs = max(1, stage["runs"][tier] // nshards)
+    target = stage["target"]
+    corpus = os.path.join(scratch_dir, "corpus-%s-%d" % (stage["name"], shard))
+    os.makedirs(corpus, exist_ok=True)
+    seeds = stage.get("seeds", []) if shard % 2 == 0 else []      # odd shards start from an empty corpus
+    for i, b in enumerate(seeds):
+        with open(os.path.join(corpus, "seed%03d" % i), "wb") as f:
+            f.write(b)
+    total = runs + len(seeds)
+    t0 = time.time()
+
+    def flush(final=False):
+        out = {"harness_error": None}
+        out.update(ctx.result())
+        out["wall_s"] = time.time() - t0
+        tmp = out_path + ".tmp"
+        with open(tmp, "w") as f:
+            json.dump(out, f, default=repr)
+        os.replace(tmp, out_path)
+
+    def one(data):
+        ctx.evaluations += 1
+        ctx.case = None
+        try:
+            target(data, ctx)
+        except Violation as v:
+            if v.bucket in ctx.active_known:
+                ctx.known_hits[v.bucket] += 1
+            else:
+                ctx.report(v.bucket, v.msg, {"bytes_hex": bytes(data).hex()})
+                flush()
+                os._exit(0)
+        except Exception as e:
+            v = classify_unexpected(e)
+            if v is None:
+                with open(out_path, "w") as f:
+                    json.dump({"harness_error": "fuzz target: " + short_tb(e)}, f)
+                os._exit(2)
+            ctx.report(v.bucket, v.msg, {"bytes_hex": bytes(data).hex()})
+            flush()
+            os._exit(0)
+        if ctx.evaluations % 2000 == 0 or ctx.evaluations >= total:
+            flush()
+
+    argv = [sys.argv[0], corpus, "-runs=%d" % runs, "-seed=%d" % (seed * 1000 + shard + 1), "-max_len=%d" % stage.get("max_len", 64),
+            "-verbosity=0", "-print_final_stats=0"]
+    flush()
+    atheris.Setup(argv, one)
+    atheris.Fuzz()
+    flush()
+    os._exit(0)
+
+
 def load(prop):
     return importlib.import_module("vf.props." + prop.lower())
 
@@ -197,6 +254,14 @@ def main():
     try:
         _check_overlay()
         _quiet_logs()
+        if a.stage and a.stage.startswith("fuzz") and not a.replay:
+            # pure-Python targets: instrument the package under test while it is imported
+            inc = os.environ.get("VERIF_FUZZ_INSTRUMENT", "")
+            if inc:
+                import atheris
+                with atheris.instrument_imports(include=inc.split(",")):
+                    for m in inc.split(","):
+                        importlib.import_module(m)
         mod = load(a.prop)
         stages = mod.stages(a.tier)
         if a.describe:
@@ -205,6 +270,7 @@ def main():
                 "assumptions": getattr(mod, "ASSUMPTIONS", []),
                 "stages": [{"name": s["name"], "kind": s["kind"], "flavour": s.get("flavour", "plain"),
                             "shards": s.get("shards", 16), "exhaustive": bool(s.get("exhaustive", False)),
+                            "instrument": s.get("instrument"),
                             "examples": (s.get("examples") or {}).get(a.tier)} for s in stages],
             }
             out.update(desc)
@@ -230,6 +296,8 @@ def main():
                     run_hyp_stage(stage, a.tier, a.shard, a.nshards, a.seed, ctx, journal, a.shrink_limit)
                 elif stage["kind"] == "enum":
                     run_enum_stage(stage, a.tier, a.shard, a.nshards, ctx, journal)
+                elif stage["kind"] == "fuzz":
+                    run_fuzz_stage(stage, a.tier, a.shard, a.nshards, a.seed, ctx, a.out, os.path.dirname(a.out))
                 else:
                     raise HarnessError("unknown stage kind %r" % stage["kind"])
             except StopStage:
